@@ -5,6 +5,7 @@ Model driver of C14.
 
   tail <hexid>          → `ok <registration>` | `ok none` | `panic`
   country <hexid>       → `ok reg=<r> country=<c> pattern=<p> category=<k>` (`-` for None) | `panic`
+  pair <a> <b>          → `<tail a> | <tail b>` (replay form of an injectivity violation)
   tails <lo> <count>    → `ok some=<n> panic=<n> fnv=<16 hex digits>`: FNV-1a (64 bit) of the `tail` answers
                           of `lo, lo+1, …, lo+count-1`, each followed by `\n` (the exhaustive tier sends the
                           2^24 addresses as 4096 such blocks instead of 16.7 million lines)
@@ -49,6 +50,11 @@ def tailsLoop : Nat → Nat → UInt64 → Nat → Nat → (UInt64 × Nat × Nat
 def handle : List String → Option String
   | ["tail", n] => n.toNat?.bind fun h => if h < 2 ^ 32 then some (showTail (tailStr h)) else none
   | ["country", n] => n.toNat?.bind fun h => if h < 2 ^ 32 then some (showInfo (info h)) else none
+  | ["pair", a, b] =>
+    match a.toNat?, b.toNat? with
+    | some a, some b =>
+      if a < 2 ^ 32 ∧ b < 2 ^ 32 then some s!"{showTail (tailStr a)} | {showTail (tailStr b)}" else none
+    | _, _ => none
   | ["tails", lo, n] =>
     match lo.toNat?, n.toNat? with
     | some lo, some n =>
